@@ -498,7 +498,7 @@ def select(rng, genf, required, per_tag, max_programs, tries=4000):
 # ------------------------------------------------------------------ C08 programs (macros)
 
 C08_TAGS = ["or-then-again", "twice", "clash-before", "clash-after", "site-or", "body-or", "nested-body", "nested-head", "head-macro", "expr-param", "ident-in", "ident-out",
-            "local-pat", "local-cond", "body-attached-cond", "body-attached-let", "local-neg", "twice-nested", "nested-passes-local", "expr-arg-mentions-clash", "macro-in-fact-head", "chain-twice", "chain-clash", "suffix-twice", "block-shadow", "nested-local-same-spelling"]
+            "local-pat", "local-cond", "body-attached-cond", "body-attached-let", "local-neg", "twice-nested", "nested-passes-local", "expr-arg-mentions-clash", "macro-in-fact-head", "chain-twice", "chain-clash", "suffix-twice", "block-shadow", "nested-local-same-spelling", "rust-macro-nested"]
 
 
 def gen_macro_body(rng, p, edb, idb, params, nested=None, want=()):
@@ -631,6 +631,10 @@ def gen_c08_program(rng):
         # `{ let v = v.clone(); v }` - a shadowing re-binding whose initialiser mentions the variable it re-binds.  The value is that of `v.clone()`; the hygiene pass must
         # rename the occurrence in the initialiser (free) and leave the block-bound ones alone (scope-aware walk of block expressions, `block_visit_free_vars_mut`)
         if gen_locals_in_exprs(body) and rng.chance(1, 2): macros[-1]["blk"] = True; tags.add("block-shadow")
+        # a second printer-level sugar: every other read of a macro-local variable is written `vec![v.clone()][0].clone()` and every third comparison `!matches!(a < b, false)` -
+        # Rust macro invocations NESTED inside a larger expression, whose token streams mention macro-local variables (the hygiene pass renames identifiers inside the token
+        # streams of Rust macros wherever they sit in the expression, `expr_visit_idents_in_macros_mut`)
+        elif gen_locals_in_exprs(body) and rng.chance(1, 2): macros[-1]["rsm"] = True; tags.add("rust-macro-nested")
     # a "chain" macro whose only macro-local identifier is bound exclusively through the arguments of NESTED invocations:
     #   macro hop($a, $b) { r($a, $b) }   macro chain($a, $b) { hop!($a, mid), hop!(mid, $b) }
     # (renaming the locals of `chain` must also see the identifiers it hands to nested invocations)
